@@ -16,3 +16,92 @@ Definition c15_np_pred (path out : str) : bool :=
       end && no_dot_segments out
   | _ => true
   end.
+
+(** ---- URL level: however the path was produced ---- *)
+From Yarl Require Import Preds.Obs Model.Quoter Model.Quoters Spec.QuoteSpec.
+
+Definition rds_total (p : str) : str := match remove_dot_segments p with Some r => r | None => p end.
+Definition root (p : str) : str := match p with 47 :: _ => p | _ => 47 :: p end.
+Definition q_req (p : str) : str := qspec (eff_of PATH_REQUOTER) p.     (* constructor: "%2E" is a dot *)
+Definition q_plain (p : str) : str := qspec (eff_of PATH_QUOTER) p.     (* build / modifiers: '%' is data *)
+
+(** how several arguments of joinpath are strung together: every argument but the last
+    loses one trailing slash, and contributes nothing when empty *)
+Fixpoint prep_segments (l : list str) : list str :=
+  match l with
+  | [] => []
+  | [x] => [x]
+  | x :: r => let x' := if endswith [47] x then removelast x else x in
+              (if str_eqb x' [] then [] else [x']) ++ prep_segments r
+  end.
+
+Definition obs_path_is (o : val) (expected : str) : bool :=
+  match nthv i_raw_path o with WStr p => str_eqb p expected | _ => false end.
+Definition obs_has_authority (o : val) : bool :=
+  match nthv i_netloc o with WStr (_ :: _) => true | _ => false end.
+
+(** kind 0: URL(prefix ++ path): args path, observation
+    kind 1: build(path=) / with_path(path): args path, observation
+    kind 2: u / s and u.joinpath(segments): args raw path of u, list of segment texts, observation
+    Under an authority the stored path is remove_dot_segments of the rooted, canonicalised
+    path that was supplied or merged and has no dot segment; without an authority dot
+    segments are kept verbatim. *)
+Definition c15_url_pred (args : list val) : bool :=
+  match args with
+  | [WNat 0; WStr p; o] =>
+      match o with
+      | WList _ =>
+          if obs_has_authority o
+          then (match p with
+                | [] => obs_path_is o [47]
+                | _ => obs_path_is o (rds_total (root (q_req p)))
+                end)
+               && match nthv i_raw_path o with WStr r => no_dot_segments r | _ => false end
+          else obs_path_is o (q_req p)
+      | _ => true
+      end
+  | [WNat 1; WStr p; o] =>
+      match o with
+      | WList _ =>
+          if obs_has_authority o
+          then (match p with
+                | [] => obs_path_is o [47]
+                | _ => obs_path_is o (rds_total (root (q_plain p)))
+                end)
+               && match nthv i_raw_path o with WStr r => no_dot_segments r | _ => false end
+          else match p with
+               | [] => obs_path_is o []
+               | _ => obs_path_is o (root (q_plain p))
+               end
+      | _ => true
+      end
+  | [WNat 2; WStr base; WList segs; o] =>
+      match o with
+      | WList _ =>
+          let texts := prep_segments (flat_map (fun v => match v with WStr s => [q_plain s] | _ => [] end) segs) in
+          let b := if endswith [47] base then removelast base else base in
+          let merged := b ++ flat_map (fun s => 47 :: s) texts in
+          if obs_has_authority o
+          then obs_path_is o (rds_total (root merged))
+               && match nthv i_raw_path o with WStr r => no_dot_segments r | _ => false end
+          else obs_path_is o merged || obs_path_is o (match merged with 47 :: r => r | _ => merged end)
+      | _ => true
+      end
+  | _ => false
+  end.
+
+(** known finding F23: in / and joinpath a ".." at the root pops the root marker, so a
+    following empty segment takes its place ("..//a" -> "/a" where 5.2.4 gives "//a") *)
+Definition kf_f23 (args : list val) : bool :=
+  match args with
+  | [WNat 1; WStr p; o] =>
+      (* with_path(relative text): dot segments are removed before the text is rooted *)
+      negb (startswith [47] p) && existsb is_dotseg (split 47 p) && existsb (fun seg => str_eqb seg []) (removelast (split 47 p))
+  | [WNat 2; WStr base; WList segs; o] =>
+      existsb (fun v => match v with
+                        | WStr s => existsb (fun seg => str_eqb seg []) (removelast (split 47 s)) && existsb is_dotdot (split 47 s)
+                        | _ => false end) segs
+      || (existsb (fun v => match v with WStr s => existsb is_dotdot (split 47 s) | _ => false end) segs
+          && existsb (fun v => match v with WStr [] => true | _ => false end) segs)
+  | _ => false
+  end.
